@@ -13,6 +13,13 @@ code -> spec : what came back is projected (on-sky separations with the validate
                Fraction / 60 digit decimal arithmetic; exact integers on the dyadic shift lattice) and
                judged by FramesTrace.tla under TLC, which recomputes canonical forms, tolerances, SepGC /
                CosSep, the shift arithmetic and the cube rotations from the case.
+world        : FramesMC.tla also enumerates SESSIONS (sequences of calls in one process: rotate at twin Euler angles that
+               agree to six digits, with / without undoing, every conversion x epoch, randcap(dorot=True) as another entry
+               point, the caller re-using its input buffers and scribbling over the results).  Each session is run in ONE
+               fresh process (a child forked from a zygote in which no conversion was ever called), and every call is
+               compared with the same call (same arguments) in another fresh process; FramesTrace.tla judges (clause
+               world_independent: 1e-9 degree on the sky; rotate_inverse within the session).  --replay re-executes the
+               whole session in a fresh process.
 Python never decides a verdict; it maps abstract <-> concrete and records.
 """
 import math
@@ -779,8 +786,8 @@ def _zyg_run(prog):
     if len(head) < 8:
         raise MachineryError("world zygote died")
     body = z.stdout.read(struct.unpack("<Q", head)[0])
-    if not body:
-        return [{"err": "ProcessDied", "out": None} for _ in prog["calls"]]
+    if not body:           # (killed from outside, out of memory: nothing can be said about the code under test)
+        raise MachineryError("world: the child process of a session died without an answer")
     return pickle.loads(body)
 
 
